@@ -73,4 +73,108 @@ theorem hasDerivAt_piArgIm (r : ℝ → PRBM ℝ n h a) (dr : PRBM ℝ n h a) (t
   refine hd.congr_deriv ?_
   simp only [sub_mul, Finset.sum_sub_distrib]
 
+/-! ### the density-matrix element in product form and its derivative -/
+
+/-- `z_k = x_k + i y_k` -/
+noncomputable def zArg (am ph : PRBM ℝ n h a) (v vp : Fin n → ℝ) (k : Fin a) : ℂ :=
+  ((piArgRe am v vp k : ℝ) : ℂ) + ((piArgIm ph v vp k : ℝ) : ℂ) * I
+
+/-- `ρ(v,v') = exp(Γ⁺ + iΓ⁻) Π_k (1 + e^{z_k})` -/
+noncomputable def rhoProd (am ph : PRBM ℝ n h a) (v vp : Fin n → ℝ) : ℂ :=
+  Complex.exp (((am.gamma 1 v vp : ℝ) : ℂ) + ((ph.gamma (-1) v vp : ℝ) : ℂ) * I) * ∏ k, (1 + Complex.exp (zArg am ph v vp k))
+
+theorem toC_rho_eq_rhoProd (am ph : PRBM ℝ n h a) (v vp : Fin n → ℝ)
+    (hz : ∀ k, (1 : ℂ) + Complex.exp (zArg am ph v vp k) ≠ 0) :
+    toC (rho am ph v vp) = rhoProd am ph v vp :=
+  rho_complex_eq am ph v vp hz
+
+/-- complex sigmoid `e^z/(1+e^z)` -/
+noncomputable def sigC (z : ℂ) : ℂ := Complex.exp z / (1 + Complex.exp z)
+
+theorem hasDerivAt_rhoProd (ram rph : ℝ → PRBM ℝ n h a) (dam dph : PRBM ℝ n h a) (t : ℝ)
+    (ha : PRBM.CurveAt ram dam t) (hp : PRBM.CurveAt rph dph t) (v vp : Fin n → ℝ)
+    (hz : ∀ k, (1 : ℂ) + Complex.exp (zArg (ram t) (rph t) v vp k) ≠ 0) :
+    HasDerivAt (fun s => rhoProd (ram s) (rph s) v vp)
+      (rhoProd (ram t) (rph t) v vp *
+        ((((gammaGrad (ram t) 1 v vp).pair dam : ℝ) : ℂ) + (((gammaGrad (rph t) (-1) v vp).pair dph : ℝ) : ℂ) * I
+          + ∑ k, sigC (zArg (ram t) (rph t) v vp k)
+              * ((((∑ j, (v j + vp j) * dam.U k j) / 2 + dam.d k : ℝ) : ℂ)
+                 + (((∑ j, (v j - vp j) * dph.U k j) / 2 : ℝ) : ℂ) * I))) t := by
+  classical
+  -- the exponential prefactor
+  have hg : HasDerivAt (fun s => (((ram s).gamma 1 v vp : ℝ) : ℂ) + (((rph s).gamma (-1) v vp : ℝ) : ℂ) * I)
+      ((((gammaGrad (ram t) 1 v vp).pair dam : ℝ) : ℂ) + (((gammaGrad (rph t) (-1) v vp).pair dph : ℝ) : ℂ) * I) t :=
+    (PRBM.hasDerivAt_gamma ram dam t ha 1 v vp).ofReal_comp.add
+      ((PRBM.hasDerivAt_gamma rph dph t hp (-1) v vp).ofReal_comp.mul_const I)
+  have h0 := hg.cexp
+  -- the factors
+  have hzk : ∀ k, HasDerivAt (fun s => zArg (ram s) (rph s) v vp k)
+      ((((∑ j, (v j + vp j) * dam.U k j) / 2 + dam.d k : ℝ) : ℂ) + (((∑ j, (v j - vp j) * dph.U k j) / 2 : ℝ) : ℂ) * I) t :=
+    fun k => (hasDerivAt_piArgRe ram dam t ha v vp k).ofReal_comp.add
+      ((hasDerivAt_piArgIm rph dph t hp v vp k).ofReal_comp.mul_const I)
+  have hfk : ∀ k ∈ (univ : Finset (Fin a)), HasDerivAt (fun s => 1 + Complex.exp (zArg (ram s) (rph s) v vp k))
+      (Complex.exp (zArg (ram t) (rph t) v vp k) *
+        ((((∑ j, (v j + vp j) * dam.U k j) / 2 + dam.d k : ℝ) : ℂ) + (((∑ j, (v j - vp j) * dph.U k j) / 2 : ℝ) : ℂ) * I)) t :=
+    fun k _ => ((hzk k).cexp).const_add 1
+  have hprod := HasDerivAt.fun_finsetProd hfk
+  have hall := h0.mul hprod
+  unfold rhoProd
+  refine hall.congr_deriv ?_
+  have hterm : ∀ k, (∏ j ∈ univ.erase k, (1 + Complex.exp (zArg (ram t) (rph t) v vp j)))
+      * (Complex.exp (zArg (ram t) (rph t) v vp k) *
+        ((((∑ j, (v j + vp j) * dam.U k j) / 2 + dam.d k : ℝ) : ℂ) + (((∑ j, (v j - vp j) * dph.U k j) / 2 : ℝ) : ℂ) * I))
+      = (∏ j, (1 + Complex.exp (zArg (ram t) (rph t) v vp j))) * (sigC (zArg (ram t) (rph t) v vp k) *
+        ((((∑ j, (v j + vp j) * dam.U k j) / 2 + dam.d k : ℝ) : ℂ) + (((∑ j, (v j - vp j) * dph.U k j) / 2 : ℝ) : ℂ) * I)) := by
+    intro k
+    rw [← Finset.mul_prod_erase univ _ (mem_univ k)]
+    unfold sigC
+    field_simp [hz k]
+  simp only [smul_eq_mul, hterm]
+  rw [← Finset.mul_sum]
+  ring
+
+/-! ### the model's `am_grads` / `ph_grads` entries pair to the logarithmic derivative of `ρ` -/
+
+/-- complex value of a complex gradient record paired with a real direction -/
+noncomputable def pairC (g : CPRBM ℝ n h a) (d : PRBM ℝ n h a) : ℂ := ⟨g.1.pair d, g.2.pair d⟩
+
+theorem toC_csigmoid (x y : ℝ) (hz : (1 : ℂ) + Complex.exp ((x : ℂ) + (y : ℂ) * I) ≠ 0) :
+    toC (csigmoid x y) = sigC ((x : ℂ) + (y : ℂ) * I) := by
+  have hez : toC ((Transc.exp x * Transc.cos y, Transc.exp x * Transc.sin y) : C ℝ) = Complex.exp ((x : ℂ) + (y : ℂ) * I) := by
+    apply Complex.ext <;> simp [Complex.exp_re, Complex.exp_im]
+  unfold csigmoid sigC
+  rw [toC_div _ _ (by rw [toC_add, toC_one, hez]; exact hz), toC_add, toC_one, hez]
+
+theorem pairC_dmAmGrads (am ph dam : PRBM ℝ n h a) (v vp : Fin n → ℝ)
+    (hz : ∀ k, (1 : ℂ) + Complex.exp (zArg am ph v vp k) ≠ 0) :
+    pairC (dmAmGrads am ph v vp) dam
+      = (((gammaGrad am 1 v vp).pair dam : ℝ) : ℂ)
+        + ∑ k, sigC (zArg am ph v vp k) * (((∑ j, (v j + vp j) * dam.U k j) / 2 + dam.d k : ℝ) : ℂ) := by
+  have hs : ∀ k, toC (csigmoid (piArgRe am v vp k) (piArgIm ph v vp k)) = sigC (zArg am ph v vp k) :=
+    fun k => toC_csigmoid _ _ (hz k)
+  have hre : ∀ k, (csigmoid (piArgRe am v vp k) (piArgIm ph v vp k)).1 = (sigC (zArg am ph v vp k)).re := by
+    intro k; rw [← hs k]; rfl
+  have him : ∀ k, (csigmoid (piArgRe am v vp k) (piArgIm ph v vp k)).2 = (sigC (zArg am ph v vp k)).im := by
+    intro k; rw [← hs k]; rfl
+  apply Complex.ext
+  · simp only [pairC, dmAmGrads, piGrad, PRBM.pair_add, Complex.add_re, Complex.ofReal_re, Complex.re_sum,
+      Complex.mul_re, Complex.ofReal_im, mul_zero, sub_zero, Bool.false_eq_true, if_false]
+    congr 1
+    simp only [PRBM.pair, zero_mul, Finset.sum_const_zero, zero_add, add_zero, two_eq, hre]
+    rw [← Finset.sum_add_distrib]
+    refine Finset.sum_congr rfl (fun k _ => ?_)
+    rw [mul_add, Finset.sum_div, Finset.mul_sum]
+    congr 1
+    refine Finset.sum_congr rfl (fun j _ => ?_)
+    ring
+  · simp only [pairC, dmAmGrads, piGrad, Complex.add_im, Complex.ofReal_im, Complex.im_sum,
+      Complex.mul_im, Complex.ofReal_re, mul_zero, add_zero, zero_add, Bool.false_eq_true, if_false]
+    simp only [PRBM.pair, zero_mul, Finset.sum_const_zero, zero_add, add_zero, two_eq, him]
+    rw [← Finset.sum_add_distrib]
+    refine Finset.sum_congr rfl (fun k _ => ?_)
+    rw [mul_add, Finset.sum_div, Finset.mul_sum]
+    congr 1
+    refine Finset.sum_congr rfl (fun j _ => ?_)
+    ring
+
 end QV
